@@ -146,7 +146,7 @@ def r2_structural_recursion(ctx, rule):
     return ok_all
 
 
-def mask_application(ctx, rule, qual, branch_body, multi):
+def mask_application(ctx, rule, qual, branch_body, multi, strict_char_map=True):
     """C branch: complement slices with n = len(group value), per-character map L -> same, U -> .upper()."""
     fn = ctx.repo.fn(qual)
     facts = {}
@@ -201,6 +201,12 @@ def mask_application(ctx, rule, qual, branch_body, multi):
             shape_ok = True
         if U(t) == "%s == 'U'" % ch and a2 == 'new_end.append(end_word[index])' and a1 == 'new_end.append(end_word[index].upper())':
             shape_ok = True
+        if not strict_char_map and not shape_ok:
+            # for one-to-one case mappings upper-casing the whole tail first is equivalent
+            ups = [k for k, v in assigns.items() if U(v) == 'end_word.upper()']
+            for u_ in ups:
+                if U(t) == "%s == 'L'" % ch and a1 == 'new_end.append(end_word[index])' and a2 == 'new_end.append(%s[index])' % u_:
+                    shape_ok = True
         facts['char_map'] = {'test': U(t), 'then': a1, 'else': a2}
     else:
         facts['char_map'] = [U(s)[:60] for s in body]
@@ -235,7 +241,7 @@ def mask_application(ctx, rule, qual, branch_body, multi):
     return ok
 
 
-def r3_mask_slices(ctx, rule):
+def r3_mask_slices(ctx, rule, strict_char_map=True):
     n = 0
     for qual, multi in ((PG + '_recursive_guesses', True), (PG + '_honeyword_recursive_guess', False)):
         fn = ctx.fn(qual)
@@ -244,7 +250,7 @@ def r3_mask_slices(ctx, rule):
             ctx.unk(rule, qual, 'dispatch not found')
             continue
         n += 1
-        mask_application(ctx, rule, qual, d[1]['C'], multi)
+        mask_application(ctx, rule, qual, d[1]['C'], multi, strict_char_map)
     ctx.floor(rule, PGF, n, 2, 'mask branches')
 
 
